@@ -136,8 +136,14 @@ def split_params(s):
 def gfortran_view(path, cwd, incs=()):
     """-> ({c name: [(ret class, [param classes], text)]}, {struct: [(field, class)]}, error)"""
     rc, so, se = build.sh(["gfortran", "-cpp", "-ffree-form", "-w", "-fc-prototypes", "-fsyntax-only"] + ["-I" + i for i in incs] + [path], cwd)
+    unknown = "Cannot convert 'UNKNOWN' to interoperable type"
     if rc != 0:
-        return None, None, se[:300]
+        # gfortran cannot print the prototype of a procedure whose dummy procedure is a subroutine (it says so in place of the
+        # parameter list and goes on); that is a limit of the printer, not an error in the module: everything else is used
+        errs = [l for l in se.split("\n") if l.startswith("Error:")]
+        if not errs or any("UNKNOWN" not in l for l in errs):
+            return None, None, se[:300]
+    so = "\n".join(re.sub(r"^.*/\* %s \*/" % re.escape(unknown), "", ln) for ln in so.split("\n"))
     protos = {}
     structs = {}
     text = re.sub(r"/\*.*?\*/", "", so, flags=re.S)  # gfortran annotates some members with a comment
@@ -271,6 +277,48 @@ def descriptor_args(text):
     return res
 
 
+def cptr_by_reference(text):
+    """{procedure (C binding name, or the Fortran name of an abstract interface): set of type(C_PTR) dummies declared WITHOUT value}.
+    gfortran's prototype printer shows 'void *' for a type(C_PTR) dummy with and without VALUE; the text decides."""
+    res = {}
+    joined = []
+    pend = ""
+    for ln in text.split("\n"):
+        t = ln.rstrip()
+        if t.endswith("&"):
+            pend += t[:-1] + " "
+        else:
+            joined.append(pend + t)
+            pend = ""
+    cur = None
+    for ln in joined:
+        m0 = re.match(r"\s*(?:pure\s+|elemental\s+)*(?:function|subroutine)\s+(\w+)\s*\(.*\bbind\(C", ln, re.I)
+        if m0:
+            m = re.search(r'bind\(C,\s*name="(\w+)"\)', ln, re.I)
+            cur = m.group(1) if m else m0.group(1).lower()
+            res.setdefault(cur, set())
+            continue
+        if cur and re.match(r"\s*end\s+(function|subroutine)", ln, re.I):
+            cur = None
+            continue
+        if cur and "::" in ln:
+            left, right = ln.split("::", 1)
+            low = left.lower().replace(" ", "")
+            if low.startswith("type(c_ptr)") and ",value" not in low:
+                for nm in re.findall(r"(\w+)\s*(\([^)]*\))?", right):
+                    if nm[0] and not nm[1]:
+                        res[cur].add(nm[0].lower())
+    return res
+
+
+def ptr_depth(c):
+    n = 0
+    while c and c[0] == "ptr":
+        n += 1
+        c = c[1]
+    return n
+
+
 def cfi_attribute_problems(out, label):
     """A C wrapper that allocates (CFI_allocate) or re-points (CFI_setpointer) a descriptor needs an allocatable / pointer dummy
     on the Fortran side; a dummy declared allocatable / pointer must not be bound to a wrapper that treats it as plain data only if ...
@@ -382,6 +430,7 @@ def compare_dir(out, lang, user_headers, user_incs, label):
         protos, fstructs, err = views[f]
         text = open(os.path.join(out, f)).read()
         descr = descriptor_args(text)
+        byref = cptr_by_reference(text)
         abstract = set()
         for blk in re.findall(r"abstract interface(.*?)end interface", text, re.S | re.I):
             abstract |= set(m.lower() for m in re.findall(r"(?:function|subroutine)\s+(\w+)", blk, re.I))
@@ -409,6 +458,9 @@ def compare_dir(out, lang, user_headers, user_incs, label):
                                 if not compatible(fp, cp):
                                     bad = "argument %d: the Fortran procedure takes %s, C passes %s" % (i + 1, fp, cp)
                                     break
+                                if pname in byref.get(name.lower(), ()) and ptr_depth(cp) == 1:
+                                    bad = "argument %d (%s): declared type(C_PTR) without VALUE (the address of a pointer), C passes the pointer itself: %s" % (i + 1, pname, cp)
+                                    break
                             if bad is None and not (compatible(fret, cret) or (fret[0] == "void" and cret[0] == "void") or (fret[0] == "ptr" and cret[0] == "ptr")):
                                 bad = "result: the Fortran procedure returns %s, C expects %s" % (fret, cret)
                         if bad:
@@ -433,6 +485,9 @@ def compare_dir(out, lang, user_headers, user_incs, label):
                         fp = ("ptr", ("struct", "cfi_cdesc_t"))
                     if not compatible(fp, cp):
                         bad = "argument %d: Fortran passes %s, C expects %s" % (i + 1, fp, cp)
+                        break
+                    if pname in byref.get(name, ()) and ptr_depth(cp) == 1:
+                        bad = "argument %d (%s): declared type(C_PTR) without VALUE (Fortran passes the address of the pointer), C expects the pointer itself: %s" % (i + 1, pname, cp)
                         break
                 if bad is None and not (compatible(fret, cret) or (fret[0] == "void" and cret[0] == "void")):
                     if not (fret[0] == "ptr" and cret[0] == "ptr"):
@@ -615,6 +670,14 @@ def stmt_libs():
             if lang == "c":
                 cy["language"] = "c"
             out.append(("callback returning %s (%s)" % (rt, lang), lang, cy, hname, "\n".join(hdr) + "\n"))
+        # what a callback is handed: user-data pointers, pointers to native values, values of every width, next to the same kinds
+        # as parameters of the function itself
+        pdecls = ["int apply_ctx(int n, int (*fn)(int i, void *ctx), void *ctx)", "void each_ptr(void (*fn)(double *x, const int *k, void *p), int n)",
+                  "long widths(long (*fn)(short a, long long b, float c, bool d, size_t e), int n)", "void two_ctx(void (*first)(void *a), void (*second)(void *a, void *b), void *data)"]
+        cy = {"library": "cbp", "cxx_header": hname, "options": {"wrap_python": False, "wrap_lua": False}, "declarations": [{"decl": d} for d in pdecls]}
+        if lang == "c":
+            cy["language"] = "c"
+        out.append(("callback parameter kinds (%s)" % lang, lang, cy, hname, "#include <stddef.h>\n" + ("#include <stdbool.h>\n" if lang == "c" else "") + ";\n".join(pdecls) + ";\n"))
     return out
 
 
